@@ -37,11 +37,20 @@ CLAIMED['C02'] = dict(
          'regenerated from simulation.py on every run, parsed back with Python precedence) equals the documented op '
          'table, hence equals Simulation (fast_exec_eq_pysim, fast_select_eq_pysim). The hand-modelled run-splitting '
          'loop is tied per run to the generated code (pieces parsed out of _compiled() text = model runs) and to the '
-         'values FastSimulation computes. PARTIAL: FastSimulation\'s step loop and the C backend (limb arithmetic, '
-         'hash-map memories, input packing) are covered by correspondence against the Spec model only (widths '
-         'across every 64-bit limb boundary).',
+         'values FastSimulation computes. C backend: the statements CompiledSimulation._build_* writes for a net are '
+         'modelled as programs over 64-bit limbs (Model/Sim/CLimb.lean: C expression/statement AST with its semantics); '
+         'on every run the generated C text of every combinational net of random designs is parsed and must equal the '
+         'model program statement by statement. Theorems compiled_{add,sub,and,or,xor,not,nand,wire,mux,eq,lt,gt}_eq_spec: '
+         'for operands of ANY widths (any number of limbs) and any destination width the program leaves the documented '
+         'value in the destination limbs (carry/borrow detection by comparisons, comparison chains over limbs, mask rules '
+         'of _makemask incl. the unmasked natural-width top limb); compiled_mul_eq_spec_partial: schoolbook multiplication '
+         'on limbs (mul128 partial products, both carry detections per cell, row carry stored or provably zero) is exact at '
+         'the natural destination width len(a)+len(b). PARTIAL: * into a narrower raw destination and select are modelled, '
+         'tied to the text and executed against the documented value but have no general theorem; concat is not modelled; '
+         'FastSimulation\'s step loop, hash-map memories, input/output packing, gcc and the mul128 macro are covered by '
+         'correspondence against the Spec model only (widths across every 64-bit limb boundary).',
     design='4 C02',
-    note=NOTE_COMMON + 'Modelled, not verified: gcc/ctypes/malloc, the inline-asm mul128, exec() of the generated Python.',
+    note=NOTE_COMMON + 'Modelled, not verified: gcc/ctypes/malloc, the inline-asm mul128, exec() of the generated Python; tools/vlib/cparse.py (parser of the C fragment) is part of the tie.',
     technique='Lean 4 proof over translator-regenerated emitter + differential correspondence with the Spec model')
 CLAIMED['C03'] = dict(
     text='Lean theorems: the gate-level generators synthesize substitutes for + - = < > x (ripple adder, '
@@ -151,18 +160,21 @@ CLAIMED['C06'] = dict(
 
 CLAIMED['C13'] = dict(
     text='Lean theorems on LSB-first bit lists, for every operand length and value: ripple_add (unequal lengths, '
-         'half-adder tail), cla_adder (every la_unit_len >= 1; look-ahead carry = rippled carry) and kogge_stone '
-         '(parallel-prefix rounds compose carry windows; loop invariant over the prefix distance; incl. carry-in) '
-         'return exactly a+b+cin; the Wallace-style column compression shared by _basic_mult is proved exact with '
-         'termination in C03. Every generator (kogge_stone, ripple, cla, carrysave, fast_group_adder with '
-         'Wallace/Dada, tree/signed-tree multipliers, fused/generalized FMA, simple_mult/complex_mult cycle by cycle) '
-         'is evaluated in the Lean Spec model against exact integer arithmetic over mixed widths (exhaustive values '
-         'for small total width, boundary values incl. the most negative operand beyond), and the '
-         'kogge_stone/ripple/cla netlists against the Lean models. PARTIAL: the rtllib tree reducers (Dada schedule), '
-         'signed multiplier wrapper and the sequential multipliers have oracle checks but no general theorem.',
+         'half-adder tail), cla_adder (every la_unit_len >= 1), kogge_stone (parallel-prefix loop invariant; incl. '
+         'carry-in) and carrysave_adder return the exact sum; wallace_reducer returns the weighted column sum modulo '
+         '2^result_bitwidth for every column array (reduction loop incl. termination, _sparse_adder, any exact final '
+         'adder), hence fast_group_adder (any number of operands), tree_multiplier (incl. the one-bit shortcut), '
+         'generalized_fma / fused_multiply_adder are exact; signed_tree_multiplier returns the product of the '
+         'two\'s-complement values incl. the most negative operands; the register-level model of simple_mult / '
+         'complex_mult (any shifts >= 1) raises done within len(A) idle cycles after a start pulse issued from ANY earlier '
+         'state (reset, finished, in flight) and then, and whenever done is seen, holds exactly A*B. The Lean models are '
+         'executed by the driver against the real netlists on every run (values and result widths; the sequential '
+         'multipliers cycle by cycle on random start/operand histories). Every generator is also evaluated against exact '
+         'integer arithmetic over mixed widths (exhaustive for small total width, boundary values incl. the most negative '
+         'operand beyond). PARTIAL: the Dada reduction schedule has the oracle check but no theorem.',
     design='4 C13',
     note=NOTE_COMMON,
-    technique='Lean 4 proof by induction on bit lists / look-ahead units + exhaustive small-width correspondence')
+    technique='Lean 4 proof by induction on bit lists / column arrays / clock edges + model-vs-netlist correspondence through the driver')
 
 CLAIMED['C16'] = dict(
     text='Lean theorems over the helpers as symbolically executed from their Python bodies on every run (Gen.Conv): '
@@ -269,14 +281,18 @@ CLAIMED['C18'] = dict(
          'S-box equals the affine transform of the GF(2^8) inverse (FIPS-197 5.1.1) at all 256 entries, the inverse S-box '
          'inverts it both ways, the six constant-multiplication tables equal GF(2^8) multiplication, rcon[1..10] = x^(i-1), '
          'ShiftRows is the FIPS permutation under PyRTL\'s byte layout and InvShiftRows inverts it, the InvMixColumns and '
-         'MixColumns constant matrices multiply to the identity over GF(2^8). Oracle: independent references written from '
+         'MixColumns constant matrices multiply to the identity over GF(2^8). prng_lfsr: for EVERY history of load/req/seed '
+         'cycles the register-level model of the netlist (leap-ahead by bitwidth concatenations, truncation by the register, '
+         'load before req) is in the state of the 127-bit Fibonacci LFSR (taps 126/125) reseeded by each load and advanced '
+         'bitwidth single steps per request (lfsr_history_eq_spec, closed form lfsr_after_load); the model is run against the '
+         'real circuit on random histories on every run. Oracle: independent references written from '
          'the publications against the real circuits: AES-128 (Appendix C vector, extreme and random keys/blocks), '
          'decryption inverts encryption, both state machines deliver the result when ready and hold it; xoroshiro128+, '
          'the 127-bit LFSR (taps 126/125, leaping bitwidth steps) and Trivium (after 1152 warm-up bits) for bitwidths '
          '1..256 and bits_per_cycle 1..64 with several requests separated by idle cycles; random load/req interleavings '
          '(coinciding pulses included) on the LFSR, reseeding of xoroshiro, several units with different keys built from one '
-         'AES object. PARTIAL: the round structure, '
-         'key expansion and the PRNG state machines have no Lean model (oracle only).',
+         'AES object. PARTIAL: the AES round structure and '
+         'key expansion, xoroshiro128+ and Trivium have no Lean model (oracle only).',
     design='4 C18',
     note=NOTE_COMMON + 'FIPS-197, xoroshiro128+, Trivium and the LFSR are transcribed by hand in the harness (AES also in Lean).',
     technique='Lean 4 proof by kernel evaluation over complete tables (decide +kernel, no axioms) + reference-implementation oracle')
